@@ -347,6 +347,7 @@ func registerAll() {
 	ev.Register("corpus", corpusOracle)
 	ev.Register("edge-spellings", corpusOracle)
 	ev.Register("annotation-twins", twinOracle)
+	ev.Register("comment-twins", commentOracle)
 	ev.Register("feature-table", oracle)
 }
 
@@ -585,6 +586,135 @@ func TestPropAnnotationTwins(t *testing.T) {
 	ev.Exhaustive("annotation-twins", fmt.Sprintf("%d annotation bodies (rules x dash x note) x 4 places x 5 block spellings, each against its inline twin", len(bodies)))
 	if bad > 0 {
 		t.Errorf("VIOLATION-CANDIDATE annotation-twins: %d", bad)
+	}
+}
+
+// CommentCase: a text and the same text with one user comment put at a gap between two tokens
+type CommentCase struct {
+	Text    string `json:"text"`
+	At      int    `json:"at"`      // byte offset of the gap
+	Comment string `json:"comment"` // what is inserted there
+}
+
+// gaps: the offsets of a schema text at which a blank could stand - outside strings, outside annotations and
+// comments, not inside a name / number / keyword (between two characters of which one is structural or blank)
+func gaps(text string) []int {
+	var out []int
+	inStr := false
+	structural := func(c byte) bool { return strings.IndexByte("{}[],: \t\n", c) >= 0 }
+	for i := 0; i <= len(text); i++ {
+		if i < len(text) {
+			c := text[i]
+			if inStr {
+				if c == '\\' {
+					i++
+				} else if c == '"' {
+					inStr = false
+				}
+				continue
+			}
+			if c == '/' || c == '#' {
+				// an annotation or a comment starts: up to the end of the line (block forms: up to their end)
+				if strings.HasPrefix(text[i:], "/*") {
+					j := strings.Index(text[i:], "*/")
+					if j < 0 {
+						return out
+					}
+					i += j + 1
+				} else if strings.HasPrefix(text[i:], "###") {
+					j := strings.Index(text[i+3:], "###")
+					if j < 0 {
+						return out
+					}
+					i += j + 5
+				} else {
+					j := strings.IndexByte(text[i:], '\n')
+					if j < 0 {
+						return out
+					}
+					i += j
+				}
+				continue
+			}
+			if c == '"' {
+				if i == 0 || structural(text[i-1]) {
+					out = append(out, i)
+				}
+				inStr = true
+				continue
+			}
+		}
+		prev, next := byte(' '), byte(' ')
+		if i > 0 {
+			prev = text[i-1]
+		}
+		if i < len(text) {
+			next = text[i]
+		}
+		if structural(prev) || structural(next) {
+			out = append(out, i)
+		}
+	}
+	// a user comment may stand wherever a value, a comma or a closing bracket is awaited - not between a
+	// property name and its colon, nor between the colon and the value (the scanner says so: "after object key")
+	var legal []int
+	for _, i := range out {
+		p, q := strings.TrimRight(text[:i], " \t\n"), strings.TrimLeft(text[i:], " \t\n")
+		if strings.HasSuffix(p, ":") || strings.HasPrefix(q, ":") {
+			continue
+		}
+		legal = append(legal, i)
+	}
+	return legal
+}
+
+func commentOracle(c CommentCase) *ev.Verdict {
+	if c.At < 0 || c.At > len(c.Text) {
+		return nil
+	}
+	with := c.Text[:c.At] + c.Comment + c.Text[c.At:]
+	a, b := sut.Observe(sut.Project{Root: c.Text}), sut.Observe(sut.Project{Root: with})
+	if len(a.Escapes)+len(b.Escapes) > 0 || a.Check != nil {
+		return nil // (the table holds accepted texts; panics are C02's)
+	}
+	if what, detail := firstDiff(a, b); what != "" {
+		return ev.V("comment-twins:"+what, "the text %q and the same text with a user comment at offset %d, %q, differ in %s", c.Text, c.At, with, detail)
+	}
+	return nil
+}
+
+// every gap of a table of accepted texts x three user comments
+func TestPropCommentTwins(t *testing.T) {
+	registerAll()
+	ev.KeepFirst("comment-twins")
+	texts := []string{"[ ] // {maxItems: 0}", "[] // {maxItems: 0}", "{ } // {additionalProperties: true}", "[\n  1, // {min: 0}\n  2\n]", "{\n  \"a\": 1, // {min: 0}\n  \"b\": [ ],\n  \"c\": { }\n}",
+		"12 // {min: 1}", "{\n  \"a\": [ ], // {maxItems: 0}\n  \"b\": 2\n}", "[\n  [ ], // {maxItems: 0}\n  { } // {additionalProperties: true}\n]", "{\n  \"k\": \"v\" // {minLength: 1}\n}",
+		"[ 1, 2 ]", "{ \"a\": 1, \"b\": 2 }", "[\n  true\n] // n", "{\n  \"a\": null\n} /* {additionalProperties: false} */"}
+	var n, bad int64
+	idx := 0
+	for _, tx := range texts {
+		for _, at := range gaps(tx) {
+			for _, cm := range []string{" ### c ### ", "### c ###", " ###\nblock\n### "} {
+				idx++
+				if !ev.Mine(idx) {
+					continue
+				}
+				c := CommentCase{Text: tx, At: at, Comment: cm}
+				n++
+				ev.NonTrivial("comment-twins", fmt.Sprintf("%s/%d/%s", tx, at, cm))
+				if n%53 == 1 {
+					ev.Sample("comment-twins", c)
+				}
+				if v := commentOracle(c); v != nil && ev.Report("comment-twins", c, v) {
+					bad++
+				}
+			}
+		}
+	}
+	ev.Count("comment-twins", n)
+	ev.Exhaustive("comment-twins", fmt.Sprintf("%d accepted texts x every gap between tokens x three user comments", len(texts)))
+	if bad > 0 {
+		t.Errorf("VIOLATION-CANDIDATE comment-twins: %d", bad)
 	}
 }
 
